@@ -12,6 +12,13 @@ Correspondence (model vs real code)
   relabel `from_networkx` on networkx graphs with arbitrary integer or string labels
   dotread hand-made dot texts with arbitrary node names: real pydot parse -> the model's dot-branch relabelling
   read3p  mutated gml / dot texts (no model: the third-party parsers are not modelled)
+  rtripbig  1 MiB files (thorough tier; no model: its list-based edge set is quadratic there), round-trip oracle only
+  objects (write / rtrip / rtrip3p with an `origin`): graph OBJECTS of every class of cnfgen.graphs (found by
+          introspection), of every constructor function, of every command-line construction (+ modifiers), reached
+          by update histories or read from another format — sent to the model as what their views say
+  reread  one graph file read several times in one process (every reader entry point), with in-place changes of the
+          returned objects / command-line modifiers / rewrites of the file in between: the LAST read against the
+          model's read of the current text; the oracle compares EVERY plain read with the graph in the file
 
 Oracle (independent of the model)
   round trip on the real code preserves (type, n or (l,r), edge set, numbering, dag flag);
@@ -21,8 +28,10 @@ Oracle (independent of the model)
   exception, inconsistent graph, malformed file accepted) is a failure.
 """
 import atexit
+import inspect
 import io
 import os
+import random as _code_random      # the generator of the code under test: only ever SEEDED here (reproducible objects)
 import re
 import shutil
 import sys
@@ -35,6 +44,9 @@ from harness.common import Case, req, enc_list, enc_str, enc_pairs, ok
 
 from cnfgen.graphs import readGraph, writeGraph, Graph, DirectedGraph, BipartiteGraph
 from cnfgen.clitools.graph_fileinput import read_graph_from_input
+import cnfgen.graphs as _graphs
+from cnfgen.clitools import graph_args
+from cnfgen.clitools.graph_args import make_graph_from_spec
 
 FMT = {"kthlist": 0, "gml": 1, "dot": 2, "dimacs": 3, "matrix": 4}
 TY = {"simple": 0, "digraph": 1, "dag": 2, "bipartite": 3}
@@ -47,7 +59,10 @@ RULE = ("graphs: four types x shapes (empty, isolated vertices, paths, stars, co
         "empty sides, self-loops and 2-cycles for digraphs) x every format supported for the type x names; "
         "texts: written files with 1-3 mutations (truncation, blank/comment lines anywhere, duplicated/deleted/swapped "
         "rows, out-of-range ids, wrong counts, non-numeric and odd-integer tokens, repeated/out-of-order left vertices, "
-        "backward edges) + hand-written corpus + random token soups; distinct = distinct request line; "
+        "backward edges) + hand-written corpus + random token soups; objects of every graph class / constructor / "
+        "command-line construction (+ modifier) / update history / other format through every writer and reader entry "
+        "point incl. `save`; one file read 2-6 times in one process with in-place changes, modifiers and rewrites in "
+        "between; distinct = distinct request line; "
         "non-trivial = graph with an edge / text with a digit")
 ASSUMPTIONS = [
     "decimal digits are ASCII (Python's int() also accepts non-ASCII decimal digits; outside the lexer model); other non-ASCII "
@@ -69,7 +84,60 @@ _counter = [0]
 
 
 # ---------------------------------------------------------------- graphs
+def build_origin(o, ty):
+    """the graph OBJECT described by the recipe `o` (JSON-able)"""
+    how = o["how"]
+    _code_random.seed(o.get("rseed", 0))
+    if how == "class":
+        return getattr(_graphs, o["name"])(*o["args"])
+    if how == "ctor":
+        f = _graphs
+        for part in o["name"].split("."):
+            f = getattr(f, part)
+        return f(*o["args"])
+    if how == "spec":
+        return quiet(make_graph_from_spec, o["kind"], [str(x) for x in o["spec"]])
+    if how == "history":
+        return common.graph_by_some_history(o["n"], o["edges"])
+    if how == "other-format":
+        G = build_origin(o["of"], ty)
+        return read_text(write_text(G, ty, o["fmt"]), ty, o["fmt"])
+    raise ValueError(how)
+
+
+def type_of(G):
+    if isinstance(G, _graphs.BaseBipartiteGraph):
+        return "bipartite"
+    return "digraph" if isinstance(G, DirectedGraph) else "simple"
+
+
+def g_of(G, origin=None):
+    """the graph literal (what is sent to the model) that the VIEWS of the object describe"""
+    if isinstance(G, _graphs.BaseBipartiteGraph):
+        g = {"l": G.left_order(), "r": G.right_order(), "edges": [[u, v] for u, v in G.edges()]}
+    else:
+        g = {"n": G.number_of_vertices(), "edges": [[u, v] for u, v in G.edges()]}
+    if origin is not None:
+        g["origin"] = origin
+    return g
+
+
+def canon_g(ty, g):
+    """`canon` of the graph a literal stands for, without building any object"""
+    es = [tuple(e) for e in g["edges"]]
+    if ty == "bipartite":
+        return ["bipartite", g["l"], g["r"], sorted([u, v] for u, v in set(es))]
+    if ty == "simple":
+        return ["simple", g["n"], sorted([a, b] for a, b in {(min(u, v), max(u, v)) for u, v in es})]
+    out = [ty, g["n"], sorted([u, v] for u, v in set(es))]
+    if ty == "dag":
+        out.append(all(u < v for u, v in es))
+    return out
+
+
 def make_graph(ty, g):
+    if g.get("origin") is not None:
+        return build_origin(g["origin"], ty)
     if ty == "bipartite":
         B = BipartiteGraph(g["l"], g["r"])
         for u, v in g["edges"]:
@@ -98,11 +166,11 @@ def fmt_pairs(ps):
 
 def view(G):
     """same layout as Driver/GraphIO.lean viewSimple / viewDi / viewBip"""
-    if isinstance(G, BipartiteGraph):
+    if isinstance(G, _graphs.BaseBipartiteGraph):
         l, r = G.left_order(), G.right_order()
         return " ".join(["B", str(l), str(r), "E", fmt_pairs(G.edges()),
-                         "R", rows_str([G.right_neighbors(u) for u in range(1, l + 1)]),
-                         "L", rows_str([G.left_neighbors(v) for v in range(1, r + 1)])])
+                         "R", rows_str([list(G.right_neighbors(u)) for u in range(1, l + 1)]),
+                         "L", rows_str([list(G.left_neighbors(v)) for v in range(1, r + 1)])])
     n = G.number_of_vertices()
     if isinstance(G, DirectedGraph):
         return " ".join(["D", str(n), str(G.number_of_edges()), "1" if G.is_dag() else "0", "E", fmt_pairs(G.edges()),
@@ -115,7 +183,7 @@ def view(G):
 def canon(G, ty):
     """what the property speaks about: type, order (and split), numbering, edge set"""
     if ty == "bipartite":
-        assert isinstance(G, BipartiteGraph)
+        assert isinstance(G, _graphs.BaseBipartiteGraph)
         return ["bipartite", G.left_order(), G.right_order(), sorted([u, v] for u, v in G.edges())]
     if ty == "simple":
         assert isinstance(G, Graph)
@@ -169,7 +237,20 @@ def roundtrip_oracle(ty, fmt, g, name, via):
     def oracle():
         G = make_graph(ty, g)
         before = canon(G, ty)
-        if via == "stringio":
+        if g.get("origin") is not None and _deep(before) != _deep(canon_g(ty, g)):
+            return {"roundtrip": "the object is not the graph it was when the case was generated", "object": before,
+                    "generated": canon_g(ty, g), "origin": g["origin"]}
+        if via in ("save", "save-fmt") and (g.get("origin") or {}).get("how") == "spec":
+            # the command line's own route to the writer: `<construction> … save [<format>] <file>`
+            _counter[0] += 1
+            path = os.path.join(_TMP, "s{}.{}".format(_counter[0], fmt if via == "save" else "graph"))
+            o = g["origin"]
+            _code_random.seed(o.get("rseed", 0))
+            quiet(make_graph_from_spec, o["kind"], [str(x) for x in o["spec"]] + ["save"] + ([fmt] if via == "save-fmt" else []) + [path])
+            with open(path, encoding="utf-8", newline="") as fh:
+                text = fh.read()
+            os.unlink(path)
+        elif via == "stringio" or via in ("save", "save-fmt"):
             text = write_text(G, ty, fmt, name)
         else:
             _counter[0] += 1
@@ -181,7 +262,7 @@ def roundtrip_oracle(ty, fmt, g, name, via):
                 text = fh.read()
             os.unlink(path)
         try:
-            H = read_text(text, ty, fmt, via)
+            H = read_text(text, ty, fmt, via if via not in ("save", "save-fmt") else "cli")
         except Exception as e:
             return {"roundtrip": "reader raised " + type(e).__name__, "msg": str(e)[:120], "text": text[:600],
                     "graph": before}
@@ -481,6 +562,92 @@ def build_huge(suite, info, via):
                 cls="{}:{}:huge-number".format(fmt, ty), nontrivial=False, info=info)
 
 
+
+# ---------------------------------------------------------------- one file, several reads in one process
+READERS = ["cli", "cli-fmt", "spec", "spec-fmt", "readGraph", "readGraph-fmt", "from_file", "open"]
+
+
+def read_path(path, ty, fmt, how):
+    if how == "cli":
+        return quiet(read_graph_from_input, ty, path, "autodetect")
+    if how == "cli-fmt":
+        return quiet(read_graph_from_input, ty, path, fmt)
+    if how == "spec":
+        return quiet(make_graph_from_spec, ty, [path])
+    if how == "spec-fmt":
+        return quiet(make_graph_from_spec, ty, [fmt, path])
+    if how == "readGraph":
+        return quiet(readGraph, path, ty)
+    if how == "from_file" and ty != "dag":
+        return quiet(CLASSES[ty].from_file, path)
+    if how == "open":
+        with open(path, encoding="utf-8") as fh:
+            return quiet(readGraph, fh, ty, fmt)
+    return quiet(readGraph, path, ty, fmt)
+
+
+def touch(G, ops):
+    """the caller changes the object it was given, in place"""
+    for op in ops:
+        try:
+            if op[0] == "add":
+                G.add_edge(op[1], op[2])
+            elif op[0] == "rem":
+                G.remove_edge(op[1], op[2])
+            elif op[0] == "upd":
+                G.update_vertex_number(op[1])
+            elif op[0] == "name":
+                G.name = op[1]
+        except (ValueError, AttributeError):
+            pass
+
+
+def run_script(ty, fmt, gs, name, script):
+    """runs the script on one private file; returns (list of (step, version, canon or 'raised X') for every plain
+    read, the last object read or the exception of the last read)"""
+    _counter[0] += 1
+    path = os.path.join(_TMP, "r{}.{}".format(_counter[0], fmt))
+    reads, last, version = [], None, None
+    try:
+        for i, st in enumerate(script):
+            if st[0] == "write":
+                version = st[1]
+                text = write_text(make_graph(ty, gs[version]), ty, fmt, name)
+                with open(path, "w", encoding="utf-8", newline="") as fh:
+                    fh.write(text)
+            elif st[0] == "read":
+                try:
+                    last = read_path(path, ty, fmt, st[1])
+                    reads.append((i, version, canon(last, ty)))
+                except Exception as e:  # noqa
+                    last = e
+                    reads.append((i, version, "raised " + type(e).__name__))
+            elif st[0] == "touch":
+                if last is not None and not isinstance(last, Exception):
+                    touch(last, st[1])
+            elif st[0] == "mod":
+                _code_random.seed(st[2] if len(st) > 2 else 0)
+                try:
+                    quiet(make_graph_from_spec, ty, [path] + [str(x) for x in st[1]])
+                except ValueError:
+                    pass
+    finally:
+        if os.path.exists(path):
+            os.unlink(path)
+    return reads, last
+
+
+def reread_oracle(ty, fmt, gs, name, script):
+    def oracle():
+        reads, _ = run_script(ty, fmt, gs, name, script)
+        for i, version, got in reads:
+            want = canon_g(ty, gs[version])
+            if _deep(got) != _deep(want):
+                return {"reread": "a read of the file does not return the graph that is in the file", "step": i,
+                        "script": script, "file_holds": want, "read_returned": got, "format": fmt, "type": ty}
+        return None
+    return oracle
+
 # ---------------------------------------------------------------- build
 def graph_nontrivial(g):
     return len(g["edges"]) > 0
@@ -514,6 +681,10 @@ def build(suite, info):
             return ok(view(read_text(t, ty, fmt)))
         r = req("rtrip", FMT[fmt], TY[ty], enc_str(str(name)), enc_g(ty, g))
         return Case(suite, r, impl, roundtrip_oracle(ty, fmt, g, name, info.get("via", "stringio")),
+                    cls="{}:{}:{}".format(fmt, ty, info.get("shape", "")), nontrivial=graph_nontrivial(g), info=info)
+    if suite == "rtripbig":
+        ty, fmt, g, name = info["ty"], info["fmt"], info["g"], info.get("name", "G")
+        return Case(suite, "ack3p", lambda: ok("-"), roundtrip_oracle(ty, fmt, g, name, info.get("via", "stringio")),
                     cls="{}:{}:{}".format(fmt, ty, info.get("shape", "")), nontrivial=graph_nontrivial(g), info=info)
     if suite == "rtrip3p":
         ty, fmt, g = info["ty"], info["fmt"], info["g"]
@@ -563,6 +734,23 @@ def build(suite, info):
         r = req("rtripf", FMT[fmt], TY[ty], enc_str(str(name)), enc_g(ty, g))
         return Case(suite, r, impl, roundtrip_oracle(ty, fmt, g, name, "file"),
                     cls="{}:{}:{}".format(fmt, ty, info.get("shape", "")), nontrivial=graph_nontrivial(g), info=info)
+    if suite == "reread":
+        ty, fmt, gs, name, script = info["ty"], info["fmt"], info["gs"], info.get("name", "G"), info["script"]
+        lastw = [st[1] for st in script if st[0] == "write"][-1]
+
+        def impl():
+            _, last = run_script(ty, fmt, gs, name, script)
+            if isinstance(last, Exception):
+                raise last
+            return ok(view(last))
+        if fmt in INHOUSE:
+            r = req("rtrip", FMT[fmt], TY[ty], enc_str(name), enc_g(ty, gs[lastw]))
+        else:
+            text = write_text(make_graph(ty, gs[lastw]), ty, fmt, name)
+            r = relabel_req(ty, nx_parse(text, fmt), dot=(fmt == "dot"))
+        kinds = sorted({st[0] for st in script} - {"write", "read"}) + (["rewrite"] if sum(st[0] == "write" for st in script) > 1 else [])
+        return Case(suite, r, impl, reread_oracle(ty, fmt, gs, name, script), cls="{}:{}:{}".format(fmt, ty, "+".join(kinds) or "plain"),
+                    nontrivial=len(script) > 2, info=info)
     if suite == "relabel":
         ty, nodes, edges = info["ty"], info["nodes"], [tuple(e) for e in info["edges"]]
         N = networkx.Graph() if ty != "digraph" else networkx.DiGraph()
@@ -808,6 +996,161 @@ CORPUS_TEXTS = [
 ]
 
 
+# ---------------------------------------------------------------- graph OBJECTS, however they came to be
+def graph_classes():
+    """(name, bipartite?) of every concrete graph class the module defines"""
+    out = []
+    for name, c in sorted(inspect.getmembers(_graphs, inspect.isclass)):
+        if c.__module__ != _graphs.__name__ or not issubclass(c, _graphs.BaseGraph):
+            continue
+        bip = issubclass(c, _graphs.BaseBipartiteGraph)
+        try:
+            G = c(2, 2) if bip else c(2)
+            canon(G, type_of(G))
+        except Exception:  # noqa: abstract bases, classes with other constructors
+            continue
+        out.append((name, bip))
+    return out
+
+
+def ctor_args(name, rng):
+    """argument lists for the constructor functions of cnfgen.graphs (None: not a known constructor)"""
+    n = rng.choice([1, 2, 5, 9, 10, 12])
+    l, r = rng.choice([(1, 1), (3, 4), (2, 10), (12, 3), (5, 5), (10, 11)])
+    table = {
+        "Graph.null_graph": [], "Graph.empty_graph": [n], "Graph.complete_graph": [n], "Graph.star_graph": [n],
+        "bipartite_random_left_regular": [l, r, rng.randint(0, r)],
+        "bipartite_random_m_edges": [l, r, rng.randint(0, l * r)],
+        "bipartite_random": [l, r, rng.choice([0, .3, .5, 1])],
+        "bipartite_shift": [l, r, sorted(rng.sample(range(0, r + 1), rng.randint(0, min(3, r))))],
+        "bipartite_random_regular": [l, l, rng.randint(0, l)],
+        "dag_pyramid": [rng.choice([0, 1, 2, 4])], "dag_complete_binary_tree": [rng.choice([0, 1, 2, 3])],
+        "dag_path": [rng.choice([0, 1, 5, 11])],
+    }
+    return table.get(name)
+
+
+def ctor_names():
+    out = []
+    for name, f in sorted(inspect.getmembers(_graphs, inspect.isfunction)):
+        if f.__module__ == _graphs.__name__ and (name.startswith("bipartite_") or name.startswith("dag_")):
+            out.append(name)
+    for cname in ("Graph",):
+        for name, f in sorted(inspect.getmembers(getattr(_graphs, cname), inspect.ismethod)):
+            if name.endswith("_graph"):
+                out.append(cname + "." + name)
+    return out
+
+
+def spec_args(ty, cname, rng):
+    """numeric arguments of a command-line construction (None: unknown construction)"""
+    l, r = rng.choice([(1, 1), (3, 4), (2, 10), (12, 2), (5, 5), (10, 11)])
+    table = {
+        ("simple", "gnp"): rng.choice([[6, .5], [11, .3], [4, .5, 3], [1, 1]]),
+        ("simple", "gnm"): rng.choice([[7, 9], [12, 20], [3, 0]]),
+        ("simple", "gnd"): rng.choice([[6, 3], [10, 4], [12, 1]]),
+        ("simple", "grid"): rng.choice([[2, 3], [3, 4], [2, 2, 3], [1], [11]]),
+        ("simple", "torus"): rng.choice([[3, 3], [3, 4], [10]]),
+        ("simple", "complete"): rng.choice([[5], [12], [2, 3], [1]]),
+        ("simple", "empty"): rng.choice([[1], [5], [10]]),
+        ("bipartite", "glrp"): [l, r, rng.choice([0, .4, 1])],
+        ("bipartite", "glrm"): [l, r, rng.randint(0, l * r)],
+        ("bipartite", "glrd"): [l, r, rng.randint(0, r)],
+        ("bipartite", "regular"): [l, l, rng.randint(0, l)],
+        ("bipartite", "shift"): [l, r] + sorted(rng.sample(range(0, r + 1), rng.randint(0, min(3, r)))),
+        ("bipartite", "complete"): [l, r],
+        ("bipartite", "empty"): [l, r],
+    }
+    if ty in ("dag", "digraph"):
+        return {"path": [rng.choice([0, 1, 4, 11])], "tree": [rng.choice([0, 1, 3])], "pyramid": [rng.choice([0, 1, 2, 4])]}.get(cname)
+    return table.get((ty, cname))
+
+
+def option_args(ty, oname, rng):
+    return {"plantclique": [rng.choice([0, 1, 2, 3])], "addedges": [rng.choice([0, 1, 2])], "splitedges": [rng.choice([0, 1, 2])],
+            "plantbiclique": [rng.choice([0, 1]), rng.choice([0, 1, 2])]}.get(oname, [1])
+
+
+def gen_objects(rng, quick):
+    """[(ty, g-with-origin, label)]: the object is built once here to read off the graph it is"""
+    origins = []
+    for name, bip in graph_classes():
+        sizes = [(0, 0), (1, 1), (3, 4), (2, 10), (12, 2), (0, 3), (3, 0)] if bip else [(0,), (1,), (5,), (12,)]
+        for a in (sizes if not quick else [sizes[0]] + rng.sample(sizes[1:], 2 if name in CORE_CLASSES else 4)):
+            origins.append(({"how": "class", "name": name, "args": list(a)}, "class:" + name))
+    for name in ctor_names():
+        for _ in range(1 if quick else 4):
+            a = ctor_args(name, rng)
+            if a is not None:
+                origins.append(({"how": "ctor", "name": name, "args": a, "rseed": rng.randrange(10 ** 6)}, "ctor:" + name))
+    for ty in sorted(graph_args.constructions):
+        if ty == "digraph":
+            continue
+        for cname in sorted(graph_args.constructions[ty]):
+            for rep in range(2 if quick else 6):
+                a = spec_args(ty, cname, rng)
+                if a is None:
+                    continue
+                spec = [cname] + a
+                label = "spec:{}:{}".format(ty, cname)
+                opts = [o for o in graph_args.options[ty] if o != "save"]
+                if rep % 2 == 1 and opts:
+                    o = rng.choice(opts)
+                    spec += [o] + option_args(ty, o, rng)
+                    label += "+" + o
+                origins.append(({"how": "spec", "kind": ty, "spec": spec, "rseed": rng.randrange(10 ** 6)}, label))
+    for _ in range(4 if quick else 30):
+        g, _sh = gen_graph(rng, "simple", None, rng.random() < .3)
+        origins.append(({"how": "history", "n": g["n"], "edges": [list(e) for e in g["edges"]]}, "history"))
+    out = []
+    for o, label in origins:
+        try:
+            G = build_origin(o, None)
+        except ValueError:
+            continue                                  # an argument combination the construction refuses
+        ty = type_of(G)
+        out.append((ty, g_of(G, o), label))
+        if ty == "digraph" and G.is_dag():
+            out.append(("dag", g_of(G, o), label))
+    # an object that was itself read from a file in another format
+    for ty, g, label in rng.sample(out, min(len(out), 8 if quick else 60)):
+        f0 = rng.choice(SUPPORTED[ty])
+        o = {"how": "other-format", "of": g["origin"], "fmt": f0}
+        try:
+            G = build_origin(o, ty)
+        except Exception:  # noqa
+            continue
+        out.append((ty, g_of(G, o), "read-from:" + f0))
+    return out
+
+
+CORE_CLASSES = ("Graph", "DirectedGraph", "BipartiteGraph")
+
+
+def gen_script(rng, ty, n_versions):
+    """write; then 2..5 rounds of (modifier on the command line | read + in-place change of the result | rewrite)
+    each followed by a plain read that the oracle compares with the file"""
+    opts = [o for o in graph_args.options[ty] if o != "save"]
+    script = [["write", 0]]
+    for _ in range(rng.randint(2, 5)):
+        x = rng.random()
+        if x < .35 and opts:
+            o = rng.choice(opts)
+            script.append(["mod", [o] + option_args(ty, o, rng), rng.randrange(10 ** 6)])
+        elif x < .75:
+            script.append(["read", rng.choice(READERS)])
+            ops = []
+            for _k in range(rng.randint(1, 3)):
+                u, v = rng.randint(1, 6), rng.randint(1, 6)
+                ops.append(rng.choice([["add", u, v], ["add", v, u], ["add", u, v], ["rem", u, v], ["upd", rng.randint(1, 14)],
+                                       ["name", "changed"]]))
+            script.append(["touch", ops])
+        elif x < .9 and n_versions > 1:
+            script.append(["write", rng.randrange(n_versions)])
+        script.append(["read", rng.choice(READERS)])
+    return script
+
+
 def cases(ctx):
     tier, seed = ctx["tier"], ctx["seed"]
     rng = common.sub_rng(seed, "C14")
@@ -890,9 +1233,39 @@ def cases(ctx):
                         es = [(v, u) if rng.random() < .4 else (u, v) for u, v in es]
                     g = {"n": n, "edges": es}
                 rng.shuffle(es)
-                infos.append(("rtrip", dict(ty=ty, fmt=fmt, g=g, name="large", shape="large", via=rng.choice(["stringio", "file", "from_file"]))))
+                # the model's edge set is a list (membership is linear): 10^5 edges would cost it minutes per graph, so
+                # the 1 MiB files go through the real code only (round-trip oracle); up to 230 vertices the model reads too
+                infos.append(("rtrip" if n <= 230 else "rtripbig",
+                              dict(ty=ty, fmt=fmt, g=g, name="large", shape="large", via=rng.choice(["stringio", "file", "from_file"]))))
                 if n == 170 and ty != "bipartite":
                     infos.append(("write", dict(ty=ty, fmt=fmt, g=g, name="large", shape="large", via="file")))
+    # ---- graph objects of every class / constructor / command-line construction through every writer
+    rngo = common.sub_rng(seed, "C14-objects")
+    vias_o = vias + ["cli", "save", "save-fmt"]
+    for ty, g, label in gen_objects(rngo, quick):
+        for fmt in SUPPORTED[ty]:
+            if fmt not in INHOUSE and quick and rngo.random() < .6 and not label.startswith("class:"):
+                continue
+            name = rngo.choice(NAMES[:4])
+            via = rngo.choice(vias_o)
+            if fmt in INHOUSE:
+                infos.append(("write", dict(ty=ty, fmt=fmt, g=g, name=name, shape="obj:" + label, via=via)))
+                infos.append(("rtrip", dict(ty=ty, fmt=fmt, g=g, name=name, shape="obj:" + label, via="stringio")))
+            else:
+                infos.append(("rtrip3p", dict(ty=ty, fmt=fmt, g=g, name=name if fmt == "gml" else "G", shape="obj:" + label, via=via)))
+    # ---- one file read several times in one process
+    rngr = common.sub_rng(seed, "C14-reread")
+    for i in range(120 if quick else 1500):
+        ty = rngr.choice(list(TY))
+        fmt = rngr.choice([f for f in SUPPORTED[ty] if f in INHOUSE] * 3 + [f for f in SUPPORTED[ty] if f not in INHOUSE])
+        g0, _sh = gen_graph(rngr, ty, rngr.choice(["path", "random", "random", "dense", "isolated"]), rngr.random() < .2)
+        if ty == "bipartite":
+            g0 = g0 if g0["l"] and g0["r"] else {"l": 3, "r": 4, "edges": [(1, 2), (3, 4)]}
+            g1 = {"l": g0["l"], "r": g0["r"], "edges": [e for e in g0["edges"] if rngr.random() < .5]}
+        else:
+            g0 = g0 if g0["n"] >= 2 else {"n": 4, "edges": [(1, 2), (3, 4)]}
+            g1 = {"n": g0["n"], "edges": [e for e in g0["edges"] if rngr.random() < .5]}
+        infos.append(("reread", dict(ty=ty, fmt=fmt, gs=[g0, g1], name="G", script=gen_script(rngr, ty, 2))))
     # ---- malformed texts of the in-house formats
     reps = 1400 if quick else 20000
     for _ in range(reps):
